@@ -129,7 +129,7 @@ def pure_validate_attr(spec, name, v):
 def parse_val(s):
     s = s.strip()
     if s.startswith("["):
-        return S.parse_list(s)
+        return list(S.parse_list(s))
     if s.startswith("s"):
         return str(int(s[1:]))
     return int(s)
